@@ -12,6 +12,8 @@ def run(ctx):
     ctx.assumptions += ["stdlib semantics written down in MC_Fault (Scanner hands out the partial last line, ReadString returns it with the error)"]
     ctx.model_check("MC_Stream", "MC_Stream_t7" if thorough else "MC_Stream_t", workers=16, heap="12g", timeout=3400)
     ctx.model_check("MC_Fault", "MC_Fault_ok", workers=8)
+    for cfg in (("MC_StreamLines_fq_t", "MC_StreamLines_rs_t") if thorough else ("MC_StreamLines_fq_q", "MC_StreamLines_rs_q")) + ("MC_StreamLines_fixed",):
+        ctx.model_check("MC_StreamLines", cfg, workers=16, heap="12g", timeout=3400)
     if thorough:
         cross.leg(ctx, "fault-drive", [14, 6000])
     else:
